@@ -19,13 +19,13 @@ def msgs_are(ctx, out, want):
 class Step(VC):
     property_id = "C05"
 
-    def __init__(self, crate, variant):
-        self.crate, self.variant = crate, variant
+    def __init__(self, crate, variant, after=None):
+        self.crate, self.variant, self.after = crate, variant, after
         self.extra_crates = ("cw3",)
-        self.name = f"C05.{'fixed' if crate == FIXED else 'flex'}.{variant}"
+        self.name = f"C05.{'fixed' if crate == FIXED else 'flex'}." + (f"chain.{after}.then." if after else "") + variant
 
     def run(self, I, ctx, ob):
-        f = ms_step(I, ctx, ob, self.crate, self.variant)
+        f = ms_step(I, ctx, ob, self.crate, self.variant, after=self.after)
         if f.outcome != "Ok": return
         v = self.variant
         out = msgs_of(f.resp)
@@ -131,6 +131,13 @@ def vcs(tier):
     out = [Step(FIXED, v) for v in ("Propose", "Vote", "Execute", "Close")]
     out += [Step(FLEX, v) for v in ("Propose", "Vote", "Execute", "Close", "MemberChangedHook")]
     out += [Time(k) for k in ("AbsoluteCount", "AbsolutePercentage", "ThresholdQuorum")]
+    # two-call chains on one proposal (the second call is judged on the state the first really left behind)
+    CH = ("Vote", "Execute", "Close")
+    pairs = [("Execute", "Execute"), ("Execute", "Vote"), ("Close", "Execute")] if tier == "quick" else [(a, b) for a in CH for b in CH]
+    import os
+    if not os.environ.get("VERIF_CHAINS"): pairs = []          # DEV: being measured
+    for c in (FIXED, FLEX):
+        out += [Step(c, b, after=a) for a, b in pairs]
     return out
 
 
